@@ -11,6 +11,7 @@ import OFV.Proofs.C17Rdm
 import OFV.Proofs.C17Car
 import OFV.Proofs.C17Hole
 import OFV.Proofs.C17Sum
+import OFV.Proofs.C17Bridge
 import Mathlib.Data.Matrix.Mul
 import Mathlib.LinearAlgebra.Matrix.Notation
 
@@ -333,6 +334,41 @@ theorem particle_hole_map_correct {K R : Type} [CommRing K] [Ring R] [Algebra K 
     (hc : CAR n ad a) (φ : R →ₗ[K] K) (p q r s : Nat) (hq : q < n) (hr : r < n) :
     φ (ad p * a r * ad q * a s) = (if q = r then φ (ad p * a s) else 0) - φ (ad p * ad q * a r * a s) :=
   particle_hole_expectation hc φ p q r s hq hr
+
+/-! ### Bridge: the Model's entry functions (what the driver executes, over the Gaussian rationals) ARE these maps
+
+`GQ` is a commutative ring (`OFV/Proofs/GQRing.lean`), so the theorems above apply with `K = GQ`.  For ANY `GQ`-algebra `R`
+with the CAR and ANY `GQ`-linear functional `φ` with `φ 1 = 1`, feed the Model functions the RDMs of `φ`
+(`opdmOf φ = φ(a†_p a_q)`, `tpdmOf φ = φ(a†_p a†_q a_r a_s)`): they return the corresponding RDM / expectation value of `φ`. -/
+
+open OFV.Car in
+theorem model_two_hole_map_is_two_hole_rdm {R : Type} [Ring R] [Algebra GQ R] (n : Nat) (ad a : Nat → R) (hc : CAR n ad a)
+    (φ : R →ₗ[GQ] GQ) (hφ : φ 1 = 1) (p q r s : Nat) (hp : p < n) (hq : q < n) (hr : r < n) (hs : s < n) :
+    twoPdmToTwoHole (tpdmOf φ ad a) (opdmOf φ ad a) s r q p = φ (a s * a r * ad q * ad p) :=
+  twoPdmToTwoHole_bridge hc φ hφ p q r s hp hq hr hs
+
+open OFV.Car in
+theorem model_particle_hole_map_is_ph_rdm {R : Type} [Ring R] [Algebra GQ R] (n : Nat) (ad a : Nat → R) (hc : CAR n ad a)
+    (φ : R →ₗ[GQ] GQ) (p q r s : Nat) (hq : q < n) (hr : r < n) :
+    twoPdmToPh (tpdmOf φ ad a) (opdmOf φ ad a) p r q s = φ (ad p * a r * ad q * a s) :=
+  twoPdmToPh_bridge hc φ p q r s hq hr
+
+open OFV.Car Finset in
+/-- `contract n Γ (N − 1)` (`map_two_pdm_to_one_pdm`) returns the 1-RDM for every functional that sees `N̂` as `N` -/
+theorem model_contraction_is_one_rdm {R : Type} [Ring R] [Algebra GQ R] (n : Nat) (ad a : Nat → R) (hc : CAR n ad a)
+    (φ : R →ₗ[GQ] GQ) (N : Rat) (hN1 : N - 1 ≠ 0)
+    (hN : ∀ x : R, φ (x * ∑ r ∈ range n, ad r * a r) = (⟨N, 0⟩ : GQ) * φ x) (p q : Nat) (hq : q < n) :
+    contract n (tpdmOf φ ad a) (N - 1) p q = opdmOf φ ad a p q :=
+  contract_bridge hc φ N hN1 hN p q hq
+
+open OFV.Car Finset in
+/-- `expectation` (Model of `InteractionRDM.expectation`) on the RDMs of `φ` is `φ(H)` -/
+theorem model_expectation_is_expectation_value {R : Type} [Ring R] [Algebra GQ R] (n : Nat) (ad a : Nat → R)
+    (φ : R →ₗ[GQ] GQ) (hφ : φ 1 = 1) (c : GQ) (o1 : C2) (o2 : C4) :
+    expectation n c o1 (opdmOf φ ad a) o2 (tpdmOf φ ad a) =
+      φ (c • (1 : R) + (∑ p ∈ range n, ∑ q ∈ range n, o1 p q • (ad p * a q))
+        + ∑ p ∈ range n, ∑ q ∈ range n, ∑ r ∈ range n, ∑ s ∈ range n, o2 p q r s • (ad p * ad q * a r * a s)) :=
+  expectation_bridge φ hφ c o1 o2
 
 -- non-vacuity: one fermionic mode as 2 × 2 integer matrices satisfies the CAR for n = 1
 open OFV.Car Matrix in
